@@ -11,6 +11,9 @@ using namespace coloquinte;
 #ifndef POL1CHOICES
 #define POL1CHOICES POLCHOICES
 #endif
+#ifndef TALLALL
+#define TALLALL 0
+#endif
 #ifndef XLIM
 #define XLIM 64
 #endif
@@ -21,9 +24,9 @@ extern "C" void harness() {
   std::vector<int> w, h, x, y; std::vector<bool> fx(n, false), ob(n, true); std::vector<CellOrientation> orient; std::vector<CellRowPolarity> pol;
   bool anyTall = false, anyPol = false; long long sumW = 0; int maxW = 0;
   for (int i = 0; i < NC; ++i) {
-    int tall = (i == 0) ? __verif_choice(TALLCHOICES) : 0;          // cell 0 may span 2 rows
+    int tall = (TALLALL == 2) ? 1 : ((i == 0 || TALLALL) ? __verif_choice(TALLCHOICES) : 0);   // cell 0 (or every cell) may span 2 rows
 #ifdef WCHOICE
-    int wi = __verif_choice(2) ? 9 : 4;
+    int wi = (TALLALL == 2) ? (i == 0 ? 9 : 4) : (__verif_choice(2) ? 9 : 4);
 #else
     int wi = __verif_nondet_int(1, 12);
 #endif
@@ -45,9 +48,18 @@ extern "C" void harness() {
     if (tall) anyTall = true; if (pi != 0) anyPol = true;
   }
   for (int i = NC; i < n; ++i) {   // fixed cells: anywhere, obstruction or not
+#ifdef FIXEDFULL
+    int wi = __verif_nondet_int(1, 20); int hi = 25; int xi = __verif_nondet_int(0, XLIM); int yi = -2;   // covers every row: splits them in two segments
+#else
     int wi = __verif_nondet_int(0, 40); int hi = __verif_nondet_int(0, 25); int xi = __verif_nondet_int(-XLIM, 2 * XLIM); int yi = __verif_nondet_int(-XLIM, 2 * XLIM);
+#endif
     w.push_back(wi); h.push_back(hi); x.push_back(xi); y.push_back(yi); pol.push_back(CellRowPolarity::ANY); orient.push_back(CellOrientation::N);
-    fx[i] = true; ob[i] = __verif_choice(2) != 0;
+    fx[i] = true;
+#ifdef FIXEDFULL
+    ob[i] = true;
+#else
+    ob[i] = __verif_choice(2) != 0;
+#endif
   }
   c.setCellWidth(w); c.setCellHeight(h); c.setCellX(x); c.setCellY(y); c.setCellIsFixed(fx); c.setCellIsObstruction(ob); c.setCellOrientation(orient); c.setCellRowPolarity(pol);
   // rows: NROWS rows of height RH, possibly with a vertical gap, N/FS pattern chosen
